@@ -660,7 +660,7 @@ def run(ctx):
         if not ok:
             raise vlib.MachineryError("the repaired design (Fixed = all) has a lock-up or TLC failed:\n" + out[-4000:])
     if not quick:
-        for cfg in ("MC_Locks_fixed_all.cfg", "MC_Locks_fixed_t.cfg", "MC_Locks_live.cfg"):
+        for cfg in ("MC_Locks_fixed_all.cfg", "MC_Locks_fixed_bg.cfg", "MC_Locks_fixed_t.cfg", "MC_Locks_live.cfg"):
             ok, out, _ = tlc_with_fixed(ctx, "MC_Locks", cfg, allfix, 3000)
             if not ok:
                 raise vlib.MachineryError("%s failed on the repaired design:\n%s" % (cfg, out[-4000:]))
